@@ -62,7 +62,7 @@ def run(tier, seed):
                                                                          "what": verdict, "trace": trace})
                     raise common.Violation(PROP, verdict, path)
         # ---- part (b): the real rpc::Service over one connection against remote sides that call as fast as they can
-        for mode in ["hammer", "raw", "greedy"]:
+        for mode in ["hammer", "raw", "rawlate", "greedy"]:
             for k in range(3 if tier == "quick" else 20):
                 for burst in ([1, 2, 5] if tier == "quick" else [1, 2, 3, 5, 10]):
                     s = seed * 1000 + k
@@ -80,7 +80,7 @@ def run(tier, seed):
                     rpc_starts += nstarts
                     if mode != "greedy":
                         rpc_saturated += 1 if tight >= 0 else 0
-                    if tight > 0:
+                    if tight > 0 and verdict == "ok":
                         log(f"NOTE drift component=rpc_rate handler starts exceed the bound on limiter grants by {tight} (allowed up to INFLIGHT) in {trace}")
                     if len(rpc_samples) < 3 and k == 0 and burst == 2:
                         rpc_samples.append({"run": r["samples"][0], "counters": r["counters"]})
@@ -100,7 +100,8 @@ def run(tier, seed):
                        "samples": rpc_samples,
                        "rule": "part (b): the real rpc::Service (ping INFLIGHT 1, consensus INFLIGHT 3, one Rate) over the scripted transport on a ManualClock; remote = "
                                "real clients without client-side rate (hammer), a raw mux peer that pre-answers every OPEN (raw), the same claiming 1000 streams and "
-                               "using stream ids beyond the limits (greedy); TraceRpcRate.tla: starts in any window <= b + T/r + 1 + INFLIGHT, concurrent <= INFLIGHT"}}
+                               "using stream ids beyond the limits (greedy), the raw peer staying silent for a third of the run and then saying everything at once (rawlate); "
+                               "TraceRpcRate.tla: starts in any window <= b + T/r + 1 + INFLIGHT (for raw / rawlate, where the request accompanies the OPEN, without the INFLIGHT term), concurrent <= INFLIGHT"}}
         common.write_evidence(PROP, tier, seed, "model_checking", cov,
                               ["time = ManualClock; clock advances are fractions and multiples of the refresh period",
                                "part (b): two RPC kinds (ping, consensus) stand for all; the bound on handler starts carries an additive INFLIGHT term "
